@@ -4,15 +4,26 @@ Decides only the path-shaped clause "in the database as it stood when the iterat
   R-SNAPSHOT  (i) in Database::run_rule_set every search/apply step (run_plan / run_join_stages, action-buffer flush,
               the scoped parallel section) precedes the single merge_all; (ii) nothing reachable from the join
               executor, the instruction interpreter or the action flushers can merge, clear or rebuild a table.
-Plan-independence, decomposition vs single bag, constraint placement and index choice are NOT decided (data- and
+  R-CONSTRAINT-EVAL / R-CONSTRAINTS-APPLIED / R-CONSTRAINTS-PLANNED / R-CONSTRAINT-PARTITION / R-TRIE-CACHE / R-ROOT-HEADERS
+              (join_common.py): the path of a body constraint from the planner to the row filter — every scan the stage
+              compiler builds carries the atom's slow constraints exactly once, every subset the executor narrows an atom
+              to went through those constraints (and the liveness filter), constant constraints travel in a header whose
+              subset the root is intersected with, caches keyed on a subset are never reused for another subset or another
+              constraint list, and each constraint variant is evaluated with the comparison it names.
+Plan-independence, decomposition vs single bag, bag/message-variable selection and index choice are NOT decided (data- and
 plan-dependent; DESIGN.md §3 C02).
 """
 import re
 
+from . import join_common
+
 EXPLANATION = (
-    "Static clause of C02 decided on MIR / the resolved call graph: no table is merged, cleared or rebuilt while any rule of the "
-    "iteration is still searching or applying — all matching happens against the snapshot at the start of the iteration. "
-    "Not decided: that the set of matches is independent of the join plan (strategy, decomposition, stage order, indexes)."
+    "Static clauses of C02 decided on MIR / the resolved call graph: (1) no table is merged, cleared or rebuilt while any rule of the "
+    "iteration is still searching or applying — all matching happens against the snapshot at the start of the iteration; (2) the "
+    "constraints of a rule body (constants, repeated variables, primitive-free filters, timestamp bounds) reach the row filter on every "
+    "path: planned once per atom, carried through stage fusion, applied to every subset the executor narrows an atom to, evaluated with "
+    "the comparison each variant names, and never bypassed through a cache keyed on another subset or constraint list. "
+    "Not decided: that the set of matches is independent of the join plan (strategy, decomposition, message variables, stage order, indexes)."
 )
 
 MUTATORS = re.compile(r"(free_join::Database::(merge_all|merge_table|merge_simple|apply_rebuild|clear_table|refresh_rows_for_values|rebuild_containers)$|"
@@ -78,3 +89,9 @@ def run(chk, prog, tier):
     chk.assumptions = ["external functions are opaque (dyn ExternalFunction::invoke is fanned out to local impls only) but receive only &mut ExecutionState, whose view of the database is shared references (pinned by a compile-fail witness in witness/)",
                        "scope() returns after all tasks (C19)"]
     check_snapshot(chk, prog)
+    join_common.check_constraint_eval(chk, prog)
+    join_common.check_constraints_applied(chk, prog)
+    join_common.check_constraints_planned(chk, prog)
+    join_common.check_partition(chk, prog)
+    join_common.check_trie_cache(chk, prog)
+    join_common.check_root_headers(chk, prog)
